@@ -9,7 +9,7 @@ import shape as S
 from fam_vm import feasible
 from facts import strip_generics
 
-SINK_RX = re.compile(r"with_capacity$|::resize$|::reserve$|::reserve_exact$|BitSet.*::insert$|from_elem$|::repeat$|::resize_with$|BitVec.*::(grow|from_elem|with_capacity)$")
+SINK_RX = re.compile(r"with_capacity$|::resize$|::reserve$|::reserve_exact$|BitSet.*::insert$|from_elem$|(?<!iter)::repeat$|::resize_with$|BitVec.*::(grow|from_elem|with_capacity)$")
 
 ALLOC_AUDIT = {
     ("escape", "std::string::String::with_capacity"): "text.len() + n where n counts the special bytes of text (n <= text.len())",
